@@ -139,6 +139,18 @@ def check_cgscale(ctx, S, cases):
                 if float(np.max(np.abs(got["matrix"] - got["function"]))) > 1e-12 * sc * 10:
                     ctx.mismatch("cgscale/%s/%s/pre=%s/thr=%s/rep=%d/ea=%d/eb=%d/forms" % (solver, name, pre, thr, rep, ea, eb), dict(c, pair=[ea, eb]),
                                  "matrix form and function form of the same problem return different points", expected=got["matrix"][:4], observed=got["function"][:4])
+    # OBSERVATION (not asserted; outside the instance, spec: GuardSilent): a well-conditioned problem whose solution has |x| >= 1 / tol.
+    # CGLS / PCGLS carry a second, absolute stopping clause `normx*tol >= 1` (from the SOL Matlab code) and give up there.
+    try:
+        A, b = np.array([[1.0, 1.0], [0.0, 1.0]]), np.array([1.0, 2.0]) * 2.0 ** 40
+        with warnings.catch_warnings(), np.errstate(all="ignore"):
+            warnings.simplefilter("ignore")
+            x, k = S.CGLS(A, b, np.zeros(2), 8, CG_TOL, 0).solve()
+        xe = np.linalg.solve(A, b)
+        ctx.observe("cgls_solution_larger_than_1_over_tol", {"returned_the_solution": bool(np.max(np.abs(np.asarray(x, dtype=float) - xe)) <= 1e-8 * np.max(np.abs(xe))),
+                                                            "iterations": int(k), "tol": CG_TOL, "size_of_solution": float(np.max(np.abs(xe)))})
+    except Exception as e:
+        ctx.observe("cgls_solution_larger_than_1_over_tol", {"raised": repr(e)})
     return seen
 
 
